@@ -1,4 +1,5 @@
 #![allow(dead_code, unused_imports, deprecated, clippy::too_many_arguments)]
+mod acl;
 mod checks;
 mod crash;
 mod coord;
